@@ -1,11 +1,34 @@
 # unit `telemetry` (C18): event_reader.rs send_events / send_data_to_wire_server / process_events_and_clean / clean_files,
 # telemetry_event.rs TelemetryData::*, TelemetryEvent::to_xml_event, helpers.rs xml_escape
+#
+# Under contract (real bodies, verbatim): xml_escape; TelemetryData::{new,to_xml,get_size,add_event,remove_last_event,event_count};
+#   TelemetryEvent::to_xml_event; EventReader::{clean_files,send_data_to_wire_server,send_events,process_events_and_clean}.
+# Stubs (real signature, assumed contract): WireServerClient::send_telemetry_data (trace append), TelemetryEvent::from_event_log
+#   (== tev_of), logger::write, logger::write_warning, misc_helpers::json_read_from_file (no contract).
+# Ghost trace (E4): Trace{posts, batches, attempts, last_ok, removed}; `posts` is written only by the send_telemetry_data stub,
+#   `removed` only by the remove_file redirect; batches/attempts/last_ok are bookkeeping written by a proof block in
+#   send_data_to_wire_server and tied to `posts` by Trace::wf (proved, not assumed).
 import os
 import re
 HERE = os.path.dirname(os.path.abspath(__file__))
 COMMON = os.path.join(os.path.dirname(HERE), "common")
 
-ASSUMPTIONS = []
+ASSUMPTIONS = [
+    "WireServerClient::send_telemetry_data (stub, real signature): appends exactly one Post{body, ok = result is Ok} to the ghost trace when the body is non-empty and nothing when it is empty (its real body returns Ok(()) before sending in that case); this is the only place where an upload enters the trace",
+    "TelemetryEvent::from_event_log (stub) is a function of (event, vm_meta_data): the system facts it reads (OS version, RAM, CPU count, CPU architecture) do not change during one call of send_events; tev_of is uninterpreted, so every result holds for whatever the function computes",
+    "derived Clone of VmMetaData returns an equal value (E9 vx_e9_vm_meta_data_clone_*; Verus gives no spec to derived Clone of non-Copy structs)",
+    "str::replace(char, &str) is the per-character flat map `repl` (std documentation)",
+    "String::len is the length of the UTF-8 encoding (vstd::utf8::encode_utf8, the model vstd itself uses for str::len)",
+    "format!(LIT, x) with one `{}` is text-before ++ Display(x) ++ text-after (23 generated E9 stubs in to_xml_event, contract generated from the literal found in the tree: DESIGN rule E6 carried out through E9); Display of a String is the string; Display of a u64 is a non-empty string of decimal digits (dec_u64, uninterpreted otherwise)",
+    "`[0; 5].into_iter()` yields exactly 5 items (E11 newtype VxArrIter5, next() delegates)",
+    "std::fs::remove_file is redirected (E9+E4) to a stub that records the path in the trace and touches no upload; the OS may still refuse the removal (clean_files only logs that)",
+    "Display of std::path::Display, std::io::Error, common::error::Error, proxy_agent_shared::error::Error inside format! does not panic (text unconstrained; log lines only)",
+    "logger::write / write_warning, misc_helpers::json_read_from_file, serde_json::to_string(&event) (E9), tokio::time::sleep(15 s) (E9): no contract, no effect on the trace",
+    "`num_events_logged += events.len()` is redirected (E9 vx_e9_count_events): absence of usize overflow of this log-only counter is NOT proved here (C13 scope, physically unreachable)",
+    "String::to_string on a String gives an equal string (contracts/common/std_string.rs axiom_to_string_string)",
+    "at-most-once is per call of process_events_and_clean: an event file is read once per scan and handed to remove_file afterwards; if the OS refuses the removal the next scan reads the file again (file-system faults are outside the property's quantifier, which ranges over upload failures)",
+    "field types of EventReader / WireServerClient (shared-state handles, actor message enums, Key, ProxySummary, ...) are copied from the tree but opaque to Verus; the functions under contract never touch them",
+]
 
 
 ER_USES = """use super::telemetry_event::TelemetryData;
@@ -138,8 +161,8 @@ def build_event_reader(u, er):
     FLAG, _ = local_by_init("true")
     N = dict(EV=EV, VM=VM, TD=TD, FLAG=FLAG)
     ACCT = """
-                forall|t: TelemetryEvent| cnt(flat(tr.batches), t) + %%s cnt(tevs(%(EV)s@, vm), t) <= cnt(flat(old(tr).batches), t) + #[trigger] cnt(input, t),
-                forall|t: TelemetryEvent| cnt(flat(tr.batches), t) + %%s cnt(tevs(%(EV)s@, vm), t) < cnt(flat(old(tr).batches), t) + #[trigger] cnt(input, t) ==> oversize_alone(t),
+                forall|t: TelemetryEvent| cnt(flat(tr.batches), t) + %%s cnt(tevs(%(EV)s@, vm), t) <= cnt(flat(old(tr).batches), t) + #[trigger] cnt(input, t),  // @C18.send_events.inv.no_event_counted_twice
+                forall|t: TelemetryEvent| cnt(flat(tr.batches), t) + %%s cnt(tevs(%(EV)s@, vm), t) < cnt(flat(old(tr).batches), t) + #[trigger] cnt(input, t) ==> oversize_alone(t),  // @C18.send_events.inv.missing_only_if_too_large_alone
 """ % N
     IN_DATA = "cnt(%(TD)s@, t) +" % N
     u.take_fn(er, "EventReader::send_events", ret="", ghost=TR, sig_edits=unit_ret(u, er, "EventReader::send_events"),
@@ -158,23 +181,26 @@ proof { assert(old(tr).batches.subrange(0, old(tr).batches.len() as int) =~= old
               loop_attrs={0: "#[verifier::loop_isolation(false)]", 1: "#[verifier::loop_isolation(false)] #[verifier::allow_complex_invariants]"},
               loops={0: """
             invariant
-                tr.wf(),
-                tr.removed == old(tr).removed,
-                old(tr).batches.len() <= tr.batches.len() && tr.batches.subrange(0, old(tr).batches.len() as int) == old(tr).batches,""" + ACCT % ("", "") + ("""
+                tr.wf(),  // @C18.send_events.inv.trace_wf
+                tr.removed == old(tr).removed,  // @C18.send_events.inv.no_file_removed
+                old(tr).batches.len() <= tr.batches.len() && tr.batches.subrange(0, old(tr).batches.len() as int) == old(tr).batches,  // @C18.send_events.inv.earlier_batches_untouched
+""" + ACCT % ("", "") + ("""
             decreases %(EV)s@.len(),  // @C18.send_events.terminates
 """ % N), 1: ("""
                 invariant
                     n0 >= 1,
-                    %(FLAG)s ==> %(EV)s@.len() + %(TD)s@.len() == n0,
-                    !%(FLAG)s ==> %(EV)s@.len() < n0,
-                    %(TD)s@.len() >= 1 ==> xml_len(%(TD)s@) < LIMIT(),""" % N) + ACCT % (IN_DATA, IN_DATA) + ("""
-                ensures %(EV)s@.len() < n0,
+                    %(FLAG)s ==> %(EV)s@.len() + %(TD)s@.len() == n0,  // @C18.send_events.inv.every_popped_event_is_in_the_batch
+                    !%(FLAG)s ==> %(EV)s@.len() < n0,  // @C18.send_events.inv.progress_when_batch_closed
+                    %(TD)s@.len() >= 1 ==> xml_len(%(TD)s@) < LIMIT(),  // @C18.send_events.inv.batch_below_64KiB
+""" % N) + ACCT % (IN_DATA, IN_DATA) + ("""
+                ensures %(EV)s@.len() < n0,  // @C18.send_events.inv.each_batch_consumes_an_event
                 decreases %(EV)s@.len() + (if %(FLAG)s { 1int } else { 0int }),  // @C18.send_events.batch_filling_terminates
 """ % N)},
               hints=[(td_stmt, None, "before", "let ghost n0 = %(EV)s@.len();" % N),
                      (er.s(it["loops"][0]["span"][0], it["loops"][0]["body"][0]), 0, "after", "proof { lemma_new_batches(*old(tr), *tr, input); }")],
               e9=[("serde_json::to_string(&event)", None, "event: &Event", "&event", "core::result::Result<String, serde_json::Error>", "", dict(body="serde_json::to_string(event)", name="vx_e9_event_to_json")),
-                  ("%(VM)s.clone()" % N, None, "vm_meta_data: &VmMetaData", VM, "VmMetaData", "    ensures r == *vm_meta_data,", dict(body="vm_meta_data.clone()", name="vx_e9_vm_meta_data_clone"))])
+                  ] + [("%(VM)s.clone()" % N, i, "vm_meta_data: &VmMetaData", VM, "VmMetaData", "    ensures r == *vm_meta_data,", dict(body="vm_meta_data.clone()", name="vx_e9_vm_meta_data_clone_%d" % i))
+                       for i in range(er.s(it["body"][0], it["body"][1]).count("%(VM)s.clone()" % N))])
     u.take_fn(er, "EventReader::process_events_and_clean", ghost=TR,
               ghost_calls=[("Self::send_events", None, "Tracked(tr)"), ("Self::clean_files", None, "Tracked(tr)")], contract="""
         requires old(tr).wf(),
@@ -185,8 +211,8 @@ proof { assert(old(tr).batches.subrange(0, old(tr).batches.len() as int) =~= old
               pre_body="broadcast use group_fmt_telemetry, lemma_concat_push;", loop_iter_names={0: "it"}, loop_attrs={0: "#[verifier::loop_isolation(false)]"}, loops={0: """
             invariant
                 it.seq() == files@,
-                tr.wf(),
-                tr.removed == old(tr).removed + files@.subrange(0, it.index@ as int),
+                tr.wf(),  // @C18.process_events_and_clean.inv.trace_wf
+                tr.removed == old(tr).removed + files@.subrange(0, it.index@ as int),  // @C18.process_events_and_clean.inv.every_visited_file_is_cleaned
 """}, hints=[("Self::clean_files(file);", None, "after", "proof { assert(files@.subrange(0, it.index@ + 1) =~= files@.subrange(0, it.index@ as int).push(files@[it.index@ as int])); }"),
              ("for file in files", None, "after", "proof { assert(files@.subrange(0, files@.len() as int) =~= files@); }")])
 
@@ -199,8 +225,7 @@ def build(u):
     tel = u.src("proxy_agent_shared/src/telemetry.rs")
     u.features.append("pattern")
     u.externs.append("serde_derive")
-    for f in ("str_axioms.rs", "ext_types.rs", "std_string.rs"):
-        u.raw(open(os.path.join(COMMON, f)).read())
+    u.raw(open(os.path.join(COMMON, "std_string.rs")).read())   # axiom_to_string_string (String::to_string gives an equal string)
     u.raw_file("deps.rs")
     u.raw_file("spec.rs")
 
